@@ -240,7 +240,9 @@ for tgt in ("a", "b"):
         OPS.append(("append", tgt, t))
 OPS += [("iadd", "a", "b"), ("iadd", "b", "a"), ("copy", "a"), ("copy", "b"),
         ("reverse", "a", True), ("reverse", "b", False), ("reverse", "a", False),
-        ("paste", True, None), ("paste", False, 3), ("paste", True, 4), ("swap",)]
+        ("paste", True, None), ("paste", False, 3), ("paste", True, 4), ("swap",),
+        # a frame's order parameter is re-assigned in place (what an engine does when it recomputes it)
+        ("setorder", "a", 0, 55.0), ("setorder", "a", -1, -55.0), ("setorder", "b", 0, 33.0)]
 
 
 def apply(op, real, model):
@@ -266,11 +268,32 @@ def apply(op, real, model):
     elif k == "swap":
         real["a"], real["b"] = real["b"], real["a"]
         model["a"], model["b"] = model["b"], model["a"]
+    elif k == "setorder":
+        if model[op[1]].frames:
+            # frames may be shared between paths (+=, paste): the model follows object identity
+            target = real[op[1]].phasepoints[op[2]]
+            target.order = [op[3]]
+            for nm in ("a", "b"):
+                model[nm].frames = [(pp.order[0], c, v) if pp is target else (o, c, v)
+                                    for pp, (o, c, v) in zip(real[nm].phasepoints, model[nm].frames)]
     for name in ("a", "b"):
         if obs(real[name]) != model[name].frames:
             return f"path {name}: {obs(real[name])} != model {model[name].frames}"
         if real[name].maxlen != model[name].maxlen:
             return f"path {name}: maxlen {real[name].maxlen} != model {model[name].maxlen}"
+        # derived quantities always describe the current frames
+        fr = model[name].frames
+        if real[name].length != len(fr):
+            return f"path {name}: length {real[name].length} != {len(fr)}"
+        if fr:
+            orders = [f[0] for f in fr]
+            for what, got, want in (("ordermax", real[name].ordermax, max(orders)), ("ordermin", real[name].ordermin, min(orders))):
+                if got[0] != want or orders[int(got[1])] != want:
+                    return f"path {name}: {what} = {tuple(got)} but the frames have orders {orders}"
+            st, en, _, cross = real[name].check_interfaces([1.5, 2.5, 21.5])
+            want_cross = [min(orders) < x <= max(orders) for x in (1.5, 2.5, 21.5)]
+            if list(cross) != want_cross:
+                return f"path {name}: check_interfaces reports crossings {list(cross)} but orders are {orders}"
     return None
 
 
